@@ -73,6 +73,13 @@ class C11(Check):
                     margin = rng.choice([1e-3, -1e-3, 0.0, 0.5, -0.5])
                     tl = [t, {"c": {v: -c for v, c in t["c"].items()}, "k": -t["k"] + margin}] + G.rtl(rng, vs, rng.randint(0, 2))
                     rng.shuffle(tl)
+                    if rng.random() < 0.35:
+                        # the same thin band far from the origin: margins of 2^-9 (≈ 2e-3) at constants up to 8192 — an allowance that
+                        # grows with the constants must not swallow them
+                        big = float(rng.choice([256, 1024, 4096, 8192])) * rng.choice([1.0, -1.0])
+                        gap = rng.choice([2.0 ** -9, -(2.0 ** -9), 2.0 ** -8, 0.0])
+                        tl = [dict(c=dict(t["c"]), k=big), {"c": {v: -c for v, c in t["c"].items()}, "k": -big + gap}] + G.rtl(rng, vs, rng.randint(0, 1))
+                        rng.shuffle(tl)
                 out.append({"kind": "is_empty", "terms": tl})
             else:
                 pt = {v: float(rng.randint(-3, 3)) for v in vs}
